@@ -54,6 +54,8 @@ pub trait TypeOps: Send + Sync {
     fn tags(&self) -> &'static [&'static str];
     /// TypeContainer::add::<T>() on a fresh container; returns the exported type and environment
     fn container_add(&self) -> (Type, candid::TypeEnv);
+    /// add T to a shared TypeContainer
+    fn add_to(&self, c: &mut candid::types::internal::TypeContainer) -> Type;
 }
 
 pub struct Ops<T> {
@@ -130,6 +132,9 @@ impl<T: Corpus + 'static> TypeOps for Ops<T> {
     fn decode_next(&self, de: &mut IDLDeserialize) -> Result<(RVal, RVal), String> {
         let v = de.get_value::<T>().map_err(|e| format!("{e:?}"))?;
         Ok((v.to_rval(), v.canon()))
+    }
+    fn add_to(&self, c: &mut candid::types::internal::TypeContainer) -> Type {
+        c.add::<T>()
     }
     fn container_add(&self) -> (Type, candid::TypeEnv) {
         let mut c = candid::types::internal::TypeContainer::new();
